@@ -169,7 +169,7 @@ def gen_history(rng, tier):
     for _ in range(nops):
         t = rng.below(2)
         op = rng.weighted([("set", 8), ("ref", 4), ("refd", 3), ("exists", 3), ("delete", 4), ("update", 2), ("updated", 3), ("size", 2),
-                           ("copy", 1), ("merge", 1), ("fold", 1), ("dump", 1), ("hashco", 1 if kind == "equal" else 0)])
+                           ("copy", 1), ("merge", 1), ("fold", 1), ("dump", 1), ("hashco", 1 if kind == "equal" else 0), ("equalbig", 1 if kind == "equal" else 0)])
         T = "(vector-ref T %d)" % t
         if op in ("set", "ref", "refd", "exists", "delete", "update", "updated", "hashco"):
             expr, canon, rep = gen_key(rng, kind, pool)
@@ -200,6 +200,29 @@ def gen_history(rng, tier):
             ops.append({"src": "(list (hash-table-fold %s (lambda (k v acc) (+ acc (if (number? v) v 0))) 0) (length (hash-table-keys %s)) (length (hash-table->alist %s)))" % (T, T, T), "k": "fold", "t": t})
         elif op == "dump":
             ops.append({"src": "(dump %s)" % T, "k": "dump", "t": t})
+        elif op == "equalbig":
+            # equal? on data the bounded fast comparison cannot decide (cyclic, or more than its object budget): two isomorphic
+            # structures that differ in exactly one leaf -- position drawn over first / middle / last element -- or not at all
+            vlen = rng.range(1, 3)
+            pos = rng.below(vlen)
+            same = rng.chance(1, 3)
+            va = " ".join("'e%d" % j for j in range(vlen))
+            vb = " ".join(("'e%d" % j) if (same or j != pos) else "'DIFF" for j in range(vlen))
+            shape = rng.below(4)
+            if shape == 0:
+                src = ("(let ((c1 (list 1 2 3)) (c2 (list 1 2 3))) (set-cdr! (cddr c1) c1) (set-cdr! (cddr c2) c2) "
+                       "(let ((a (list c1 (vector %s))) (b (list c2 (vector %s)))) (list (equal? a b) (equal? b a))))" % (va, vb))
+            elif shape == 1:
+                n = rng.choice([6000, 6000, 12000])
+                at = rng.choice([0, 1, 17, n - 1])
+                src = ("(let ((mk (lambda (z) (let loop ((i 0) (acc '())) (if (= i %d) acc (loop (+ i 1) (cons (if (= i %d) z (vector i i)) acc))))))) "
+                       "(let ((a (mk (vector %s))) (b (mk (vector %s)))) (list (equal? a b) (equal? b a))))" % (n, at, va, vb))
+            elif shape == 2:
+                src = ("(let ((v1 (vector 'self %s)) (v2 (vector 'self %s))) (vector-set! v1 0 v1) (vector-set! v2 0 v2) (list (equal? v1 v2) (equal? v2 v1)))" % (va, vb))
+            else:
+                src = ("(let ((c1 (list 'x)) (c2 (list 'x))) (set-cdr! c1 c1) (set-cdr! c2 c2) "
+                       "(let ((a (vector (vector %s) c1)) (b (vector (vector %s) c2))) (list (equal? a b) (equal? b a))))" % (va, vb))
+            ops.append({"src": src, "k": "equalbig", "same": same})
         elif op == "hashco":
             e2, c2, r2 = gen_key(rng, kind, pool)
             ops.append({"src": "(let ((a %s) (b %s)) (list (equal? a b) (or (not (equal? a b)) (= (hash a) (hash b))) (eqv? (equal? a b) (equal? b a))))" % (expr, e2),
@@ -231,7 +254,11 @@ def generate(rng, tier, index, seed):
         threaded = True
         sched["default_q"] = rng.choice([1, 2, 5])
         sched["quantum"] = [rng.range(1, 9) for _ in range(rng.range(100, 2000))]
-    return {"prop": ID, "index": index, "seed": seed, "config": "asan" if rng.chance(1, 10) else "sim",
+    cfg = "asan" if rng.chance(1, 10) else "sim"
+    if cfg == "asan":
+        # the asan variant's allocator is an order of magnitude slower: no 10^4-object structures there
+        ops = [o for o in ops if not (o["k"] == "equalbig" and "(mk (lambda" in o["src"])]
+    return {"prop": ID, "index": index, "seed": seed, "config": cfg,
             "meta": {"family": kind + "-" + world, "kind": kind}, "ops": ops, "gc": gc, "sched": sched, "junk": junk, "threaded": threaded}
 
 
@@ -313,6 +340,8 @@ def judge(case, res):
                 V.append(Verdict("model-mismatch:dump", "op %d table %d: missing from table %r; unexpected in table %r; duplicates=%s"
                                  % (i, t, sorted(ws - gs)[:5], sorted(gs - ws)[:5], len(got_lines) != len(gs)), {"kind": case["meta"]["kind"]}))
                 return V, checks, maxsize
+        elif k == "equalbig":
+            want = "(#t #t)" if o["same"] else "(#f #f)"
         elif k == "hashco":
             want = "(#t #t #t)" if o["same"] else None
             if not o["same"] and r not in ("(#f #t #t)",):
